@@ -73,7 +73,7 @@ func genCase(t *rapid.T) Case {
 	}
 	for i := 0; i < steps; i++ {
 		op := Op{
-			Kind:   rapid.SampledFrom([]string{"sub", "sub", "sub", "cancel", "emit", "emit", "emit", "emit", "burst", "sub", "cancel", "emit", "stats", "trace"}).Draw(t, "kind"),
+			Kind:   rapid.SampledFrom([]string{"sub", "sub", "sub", "cancel", "emit", "emit", "emit", "emit", "burst", "sub", "cancel", "emit", "stats", "trace", "brokensub"}).Draw(t, "kind"),
 			Slot:   rapid.IntRange(0, n-1).Draw(t, "slot"),
 			Signal: rapid.SampledFrom([]string{"boom", "boom", "delay"}).Draw(t, "signal"),
 		}
@@ -307,6 +307,7 @@ func checkCase(c Case) error {
 	var counter int32
 	emits, maxActive, changesBetweenEmits := 0, 0, 0
 	lastWasEmit := false
+	broken := 0 // subscribers whose connection is broken
 
 	barrier := func(s *slot) error {
 		if s.raw != nil {
@@ -443,6 +444,28 @@ func checkCase(c Case) error {
 			continue
 		}
 		switch op.Kind {
+		case "brokensub":
+			// one more connection registers for the signal of the first object
+			// and then stops listening without saying so (its reading side is
+			// shut down: what the server writes to it fails): whoever else is
+			// subscribed, earlier or later, still gets every event
+			if broken >= 2 {
+				continue
+			}
+			bc, err := netkit.Dial(env.Addr)
+			if err != nil || !bc.Authenticate("u", "t", bound) {
+				return vt.Violationf("C13:setup", "raw client: %v", err)
+			}
+			defer bc.Close()
+			nextHandler++
+			if f, ok := bc.CallWait(sid, 1, 0, regPayload(1, signalIDs[op.Signal], nextHandler), bound); !ok || f.Type != netkit.Reply {
+				return vt.Violationf("C13:register-failed", "step %d: registerEvent answered %v", i, f)
+			}
+			if bc.CloseRead() {
+				broken++
+				vt.Label("subscriber-with-a-broken-connection")
+			}
+			continue
 		case "stats", "trace":
 			action := uint32(81)
 			if op.Kind == "trace" {
@@ -528,7 +551,9 @@ func checkCase(c Case) error {
 				} else {
 					err = bombs[op.Obj%2].Helper.UpdateDelay(counter)
 				}
-				if err != nil {
+				if err != nil && broken == 0 {
+					// (with a subscriber whose connection is broken the helper
+					// reports that delivery failure: the others are judged below)
 					return vt.Violationf("C13:emit-error", "step %d: emitting %s(%d): %v", i, op.Signal, counter, err)
 				}
 				emits++
